@@ -320,7 +320,7 @@ def main(path, default_bg, mode, premium):
 
     for file_path in files:
         try:
-            with open(file_path, "r", encoding="utf-8") as f:
+            with open(file_path, "r", encoding="utf-8-sig") as f:
                 css_content = f.read()
 
             rules = tinycss2.parse_stylesheet(
